@@ -170,7 +170,11 @@ async fn main() {
             let tn = tough::TargetName::new(raw.clone()).unwrap();
             let content = contents[i % contents.len()].clone();
             let digest_hex = hex::encode(sha256(&content));
-            let prefix_digest = r.chance(1, 2);
+            // an absolute name without the digest prefix replaces the output directory in `join`: only
+            // the names that point at the unique escape location are tried that way (a broken check
+            // would otherwise scatter files over the real root directory)
+            let dangerous = tn.resolved().starts_with('/') && !tn.resolved().contains(&escape);
+            let prefix_digest = dangerous || r.chance(1, 2);
             let preexisting = r.chance(1, 2);
             let fault = match r.below(8) { 0 => Fault::BitFlip, 1 => Fault::Oversize, 2 => Fault::TransportErr(r.below(3) as usize), 3 => Fault::Truncated, _ => Fault::Clean };
             // sandbox: sbx/a/b/out is the output directory, sbx/other is a bystander
